@@ -11,6 +11,7 @@ NOTE = ("Trusted base: z3 5.1; the engine's fork/replay logic; the numpy/pandas 
         "lru_cache/joblib transparency; the size bounds listed in the evidence file.")
 
 CLAIMED = {
+    "C06": ("2 (C06)", "Each of the 18 metric functions executed symbolically on free real truth/forecast/benchmark/training values, horizon weights and multioutput weights (shapes forked within the bounds); the returned term is proved equal to the textbook formula written independently (z3: UF-abstraction with semantic canonicalisation, then nonlinear real arithmetic), plus the laws (non-negativity, zero at a perfect forecast, sMAPE symmetry and bound, scale invariance, geometric-mean floor) and class-wrapper = function."),
     "C02": ("2 (C02)", "All feasible paths of the real ForecastingHorizon for unconstrained symbolic integer steps (any sign, order, duplicates), cutoffs and start values, built from int/list/array/Index/RangeIndex, relative and absolute; sortedness, exact conversions, round trips, partition, predicates, indexer and rejection of malformed values each discharged by z3."),
     "C11": ("2 (C11)", "All feasible paths of NaiveForecaster (last/mean/drift, seasonal or not, any window), in-sample prediction through the moving cutoff, PolynomialTrendForecaster (degree 1-2, exact rational least squares) and the statsmodels adapter, for symbolic real series values and symbolic integer index origin; forecasts proved equal to the textbook formulas."),
     "C01": ("2 (C01)", "All feasible paths of the real splitters / temporal_train_test_split for every window, step, initial-window, horizon and start flag (symbolic, unbounded integers) at series lengths up to the stated bound; each obligation of the property's arithmetic definition discharged by z3."),
